@@ -348,6 +348,11 @@ pub fn ctx_family(full: bool) -> Vec<Spec> {
             out.push(Spec::single(rules, "ctx_enum"));
         }
     }
+    // a longer rule that extends past a context-only accept through a state that can fail
+    for c in [ch('b'), set(&[('b', 'c')]), Re::Any, st("bc"), alt(ch('b'), Re::Eoi)] {
+        out.push(Spec::single(vec![Rule { re: ch('a'), ctx: Some(c.clone()), kind: Kind::Act(D_RETURN) }, ret(st("abc")), ret(ch('b')), ret(ch('c'))], "ctx_past"));
+        out.push(Spec::single(vec![ret(st("abcb")), Rule { re: plus(ch('a')), ctx: Some(c.clone()), kind: Kind::Act(D_RETURN) }, ret(set(&[('b', 'c')]))], "ctx_past"));
+    }
     // two rules sharing a lexeme with different contexts; context in a second rule set
     out.push(Spec::single(
         vec![
@@ -467,6 +472,70 @@ pub fn stress_family() -> Vec<Spec> {
     out
 }
 
+/// A rule that accepts, and a longer rule that leaves the accepting state through each kind of
+/// transition (character, range, `_`, difference, string) into states that can still fail.
+pub fn after_accept_family() -> Vec<Spec> {
+    let xs = [ch('a'), set(&[('a', 'b')]), st("ab"), Re::Any];
+    let ks = [ch('b'), set(&[('b', 'c')]), Re::Any, diff(Re::Any, ch('a')), st("ba")];
+    let ys = [ch('c'), set(&[('a', 'c')]), st("cb")];
+    let mut out = vec![];
+    for x in &xs {
+        for k in &ks {
+            for y in &ys {
+                out.push(Spec::single(vec![ret(x.clone()), ret(cat(cat(x.clone(), k.clone()), y.clone()))], "after_accept"));
+                for k2 in &ks {
+                    out.push(Spec::single(vec![ret(cat(cat(cat(x.clone(), k.clone()), k2.clone()), y.clone())), ret(x.clone()), ret(ch('x'))], "after_accept"));
+                }
+            }
+        }
+    }
+    out
+}
+
+/// Repetition operators as one branch of an alternation that is followed / preceded by more.
+pub fn alt_rep_family() -> Vec<Spec> {
+    let rs = [ch('a'), st("ab"), set(&[('a', 'b')])];
+    let xs = [ch('b'), ch('c'), st("ba")];
+    let ts = [ch('c'), st("ab"), plus(ch('a'))];
+    let ops: [fn(Re) -> Re; 3] = [star, plus, opt];
+    let mut out = vec![];
+    for r in &rs {
+        for x in &xs {
+            for t in &ts {
+                for op in ops {
+                    let a1 = alt(x.clone(), op(r.clone()));
+                    let a2 = alt(op(r.clone()), x.clone());
+                    for a in [a1, a2] {
+                        out.push(Spec::single(vec![ret(cat(a.clone(), t.clone())), ret(set(&[('a', 'c')]))], "alt_rep"));
+                        out.push(Spec::single(vec![ret(cat(t.clone(), a.clone())), ret(set(&[('a', 'c')]))], "alt_rep"));
+                        out.push(Spec::single(vec![ret(cat(plus(a.clone()), t.clone())), ret(set(&[('a', 'c')]))], "alt_rep"));
+                    }
+                }
+            }
+        }
+    }
+    out.retain(|s| !s.sets[0].rules[0].re.nullable_syn());
+    out
+}
+
+/// A match that is abandoned for an error (leaving a remembered match behind if the analysis is
+/// wrong) followed by a failure in a join state that is flagged for backtracking but reached with
+/// nothing recorded: a stale remembered match is consumed there.
+pub fn stale_family() -> Vec<Spec> {
+    let ks = [Re::Any, set(&[('b', 'c')]), ch('b'), diff(Re::Any, ch('c'))];
+    let mut out = vec![];
+    for k in &ks {
+        for join in [cat(set(&[('b', 'b'), ('x', 'x')]), st("bc")), cat(cat(alt(ch('x'), ch('b')), star(ch('b'))), ch('a'))] {
+            out.push(Spec::single(vec![ret(ch('a')), ret(cat(cat(ch('a'), k.clone()), ch('c'))), ret(ch('x')), ret(join.clone())], "stale"));
+            out.push(Spec::single(
+                vec![Rule { re: ch('a'), ctx: Some(ch('b')), kind: Kind::Act(D_RETURN) }, ret(st("abcc")), ret(ch('x')), ret(join.clone()), ret(ch('c'))],
+                "stale",
+            ));
+        }
+    }
+    out
+}
+
 fn with<F: FnOnce(&mut Plan)>(mut p: Plan, f: F) -> Plan {
     f(&mut p);
     p
@@ -498,7 +567,12 @@ pub fn groups(prop: &str, tier: &str) -> Vec<Group> {
             p.extra_inputs = vec!["bbabx".into(), "cbaabx".into(), "abcabcabx".into(), "abcabcaab".into()];
             let wide: Vec<Spec> = pair_family().into_iter().step_by(if q { 3 } else { 1 }).map(|s| Spec::single(s.sets[0].rules.iter().map(|r| ret(bind(&r.re, &BETA2))).collect(), "pair_bound")).collect();
             let pw = with(plan("C01", Proj::Tokens, if q { 4 } else { 5 }, 0), |p| p.alphabet = BETA2.to_vec());
-            vec![Group { plan: p, specs }, Group { plan: pw, specs: wide }]
+            let mut shapes: Vec<Spec> = ctx_family(false).into_iter().step_by(if q { 3 } else { 1 }).collect();
+            shapes.extend(after_accept_family().into_iter().step_by(if q { 7 } else { 1 }));
+            shapes.extend(alt_rep_family().into_iter().step_by(if q { 5 } else { 1 }));
+            let ps = plan("C01", Proj::Tokens, 5, 0);
+            let pst = plan("C01", Proj::Tokens, 6, 0);
+            vec![Group { plan: p, specs }, Group { plan: pw, specs: wide }, Group { plan: ps, specs: shapes }, Group { plan: pst, specs: stale_family() }]
         }
         "C02" => {
             let specs: Vec<Spec> = if q { single_enum(3, &a6, 1, 400) } else { single_enum(4, &a12, 2, 1200) };
@@ -524,7 +598,13 @@ pub fn groups(prop: &str, tier: &str) -> Vec<Group> {
             vec![Group { plan: plan("C02", Proj::Tokens, 6, 0), specs }, bound(&BETA1, if q { 40 } else { 300 }), bound(&BETA2, if q { 40 } else { 300 }), Group { plan: pb, specs: builtin_rules }]
         }
         "C03" => {
-            let specs = if q { sets_family(6, &[2, 3, 5], true) } else { sets_family(10, &[0, 2, 3, 5, 6, 9], true) };
+            let mut specs = if q { sets_family(6, &[2, 3, 5], true) } else { sets_family(10, &[0, 2, 3, 5, 6, 9], true) };
+            // a rule set entered by a switch whose automaton has the "abandoned match" and the
+            // "join reached with nothing recorded" shapes, next to an Init with overlapping rules
+            for stale in stale_family() {
+                let inner: Vec<Rule> = stale.sets[0].rules.iter().enumerate().map(|(i, r)| Rule { kind: if i == 0 { Kind::Act(d_switch_return(0)) } else { Kind::Act(D_RETURN) }, ..r.clone() }).collect();
+                specs.push(Spec::multi(vec![vec![rule(ch('c'), Kind::Act(d_switch_return(1))), ret(ch('x')), ret(ch('b')), ret(cat(set(&[('b', 'b'), ('a', 'a')]), st("bc")))], inner], "sets_stale"));
+            }
             vec![Group { plan: plan("C03", Proj::RuleIds, 5, if q { 2 } else { 3 }), specs }]
         }
         "C04" => vec![Group { plan: plan("C04", Proj::Full, if q { 5 } else { 6 }, if q { 0 } else { 1 }), specs: ctx_family(!q) }],
@@ -552,7 +632,15 @@ pub fn groups(prop: &str, tier: &str) -> Vec<Group> {
         "C07" => {
             let mut p = plan("C07", Proj::Errors, if q { 5 } else { 6 }, if q { 1 } else { 2 });
             p.extra_inputs = vec!["c  abc".into(), "  ab".into(), "c ab  ab".into()];
-            vec![Group { plan: p, specs: errors_family() }]
+            let mut extra: Vec<Spec> = after_accept_family().into_iter().step_by(if q { 9 } else { 2 }).collect();
+            extra.extend(ctx_family(false).into_iter().filter(|s| s.family == "ctx_past"));
+            // make the first rule fallible so that Custom errors are in play as well
+            for s in extra.iter_mut() {
+                s.sets[0].rules[0].kind = Kind::Fallible(D_RETURN);
+            }
+            let pe = plan("C07", Proj::Errors, 5, 1);
+            let pst = plan("C07", Proj::Errors, 6, 0);
+            vec![Group { plan: p, specs: errors_family() }, Group { plan: pe, specs: extra }, Group { plan: pst, specs: stale_family() }]
         }
         "C08" => {
             let mut specs = if q { sets_family(6, &[2, 3, 5], false) } else { sets_family(10, &[0, 2, 3, 5, 6, 9], true) };
@@ -583,7 +671,10 @@ pub fn groups(prop: &str, tier: &str) -> Vec<Group> {
             ];
             let g2 = Group { plan: with(plan("C09", Proj::Progress, if q { 4 } else { 5 }, 2), |p| p.extra_inputs = vec!["ab".repeat(5000)]), specs: sets_family(6, &[3], false) };
             let g3 = Group { plan: with(plan("C09", Proj::Progress, if q { 4 } else { 5 }, 1), |p| p.alphabet = vec!['a', 'b', 'c']), specs: eoi_family() };
-            vec![Group { plan: p, specs }, g2, g3]
+            let mut sh = stale_family();
+            sh.extend(after_accept_family().into_iter().step_by(if q { 9 } else { 2 }));
+            let g4 = Group { plan: plan("C09", Proj::Progress, 6, 0), specs: sh };
+            vec![Group { plan: p, specs }, g2, g3, g4]
         }
         "C10" => vec![Group { plan: plan("C10", Proj::Full, if q { 5 } else { 6 }, 2), specs: kinds_family(true) }],
         "C14" => {
@@ -841,7 +932,7 @@ pub fn p_family(name: &str) -> Option<PFamily> {
             };
             let rs = re_plus(k, &a6);
             let cs = re_ctx(j, &a6);
-            let others = vec![ret(set(&[('a', 'c')])), ret(st("ab")), ret(plus(ch('a')))];
+            let others = vec![ret(set(&[('a', 'c')])), ret(st("ab")), ret(plus(ch('a'))), ret(st("abc")), ret(cat(plus(ch('a')), st("bc")))];
             let (nr, nc, no) = (rs.len(), cs.len(), others.len());
             PFamily {
                 len: nr * nc * no * 2,
@@ -900,6 +991,10 @@ pub fn p_family(name: &str) -> Option<PFamily> {
         }
         "regress" => from_vec(regress_single()),
         "stress" => from_vec(stress_family()),
+        "after_accept" => from_vec(after_accept_family()),
+        "alt_rep" => from_vec(alt_rep_family()),
+        "stale" => from_vec(stale_family()),
+        "ctx_shapes" => from_vec(ctx_family(true)),
         // `#` and `|` between classes with several pieces, used inside rules
         "diff_rules" => {
             let atoms = vec![
